@@ -9,6 +9,11 @@
 -/
 import Lace.Proofs.AsmStmtTokens
 import Lace.Spec.Render
+/-- two lists related element by element (same length); as in Mathlib, not in core -/
+inductive List.Forall₂ {α β : Type _} (R : α → β → Prop) : List α → List β → Prop
+  | nil : List.Forall₂ R [] []
+  | cons {a b l₁ l₂} : R a b → List.Forall₂ R l₁ l₂ → List.Forall₂ R (a :: l₁) (b :: l₂)
+
 namespace Lace.C01
 open Lace.Asm Lace.Spec
 
